@@ -354,3 +354,27 @@ Fixpoint wf_expr (e : texpr) : bool :=
       end
   | _ => false
   end.
+
+(* --------------------------------------------------------------------------------------- *)
+(* the parsed docstring: input of the docstring check (model) and of its specification.
+   Produced by docstring_parser from func.__doc__; the parser itself is outside the model.  *)
+
+Inductive rawdoc := RawNone | RawEmpty | RawText.      (* func.__doc__ is None / == '' / anything else *)
+
+Record dtype := { dt_text : string; dt_expr : texpr }.
+
+Definition dparam := (string * option dtype)%type.      (* arg_name, type_name *)
+
+Record docT := {
+  d_raw : rawdoc;
+  d_params : list dparam;                  (* docstring.params, in docstring order *)
+  d_returns : option (list dtype) }.       (* None: no Returns section; Some l: returns.args = 'returns' :: l *)
+
+
+(* 'needle' in text (Python substring test on str) *)
+Fixpoint contains (needle text : string) : bool :=
+  String.prefix needle text ||
+  match text with
+  | EmptyString => false
+  | String _ rest => contains needle rest
+  end.
